@@ -1403,8 +1403,9 @@ class Evaluator:
         return self.eval_expr(expr, State(), Frame(None, mod, None, 0))
 
 
-def flatten_effects(effects, choose_loops=True):
-    """Enumerate linear effect sequences through nested eff:if / eff:loop / eff:partial structures."""
+def flatten_effects(effects, choose_loops=True, twice=False):
+    """Enumerate linear effect sequences through nested eff:if / eff:loop / eff:partial structures.
+    Loops are taken zero times and once (and twice with ``twice=True``, for order rules across iterations)."""
     def go(seq):
         if not seq:
             yield []
@@ -1421,6 +1422,11 @@ def flatten_effects(effects, choose_loops=True):
             for pre in go(list(head.args[1].args)):
                 for post in go(rest):
                     yield [App("eff:loop_enter", (head.args[0],), head.node)] + pre + [App("eff:loop_exit", (head.args[0],), head.node)] + post
+            if twice:
+                for pre in go(list(head.args[1].args)):
+                    for pre2 in go(list(head.args[1].args)):
+                        for post in go(rest):
+                            yield pre + pre2 + post
         elif isinstance(head, App) and head.op == "eff:partial":
             for pre in go(list(head.args[0].args)):
                 for post in go(rest):
